@@ -189,6 +189,12 @@ impl crate::vm::VM {
         for u in &self.current_upvalues {
             r.push(u.index());
         }
+        // pointers held in live manual-heap buffers (rooted by collect)
+        for v in self.manual_heap.live_values() {
+            if let Some(p) = v.as_ptr() {
+                r.push(p);
+            }
+        }
         r.sort();
         r.dedup();
         r
